@@ -59,8 +59,12 @@ example : run F {} [.set, .commit true false, .commit true true] = ({}, [.na, .e
 
 theorem table_step_inv (t : T) (e : TEv) (hi : TInv t) : TInv (tstep F t e).1 := by
   have hF : F.failedCommitReopens = true := by decide
+  have hV : F.vacuumRemembersFailedCommit = true := by decide
   obtain ⟨a, b, c, d⟩ := t
   cases e with
+  | vacuum reopenOK commitOK =>
+    simp only [tstep, hF, hV]
+    cases a <;> cases b <;> cases c <;> cases d <;> cases reopenOK <;> cases commitOK <;> simp_all [TInv]
   | begin reopenOK =>
     simp only [tstep, hF]
     cases a <;> cases b <;> cases c <;> cases d <;> cases reopenOK <;> simp_all [TInv]
@@ -82,8 +86,12 @@ theorem table_run_inv (es : List TEv) (t : T) (hi : TInv t) : TInv (trun F t es)
     whatever failed on the connection before and however often -/
 theorem no_dangling_ack_step (t : T) (e : TEv) (hi : TInv t) : (tstep F t e).2 ≠ .ackDangling := by
   have hF : F.failedCommitReopens = true := by decide
+  have hV : F.vacuumRemembersFailedCommit = true := by decide
   obtain ⟨a, b, c, d⟩ := t
   cases e with
+  | vacuum reopenOK commitOK =>
+    simp only [tstep, hF, hV]
+    cases a <;> cases b <;> cases c <;> cases d <;> cases reopenOK <;> cases commitOK <;> simp_all [TInv]
   | begin reopenOK =>
     simp only [tstep, hF]
     cases a <;> cases b <;> cases c <;> cases d <;> cases reopenOK <;> simp_all [TInv]
@@ -105,6 +113,14 @@ theorem without_reopen_next_commit_dangles :
     let F0 : Facts := { F with failedCommitReopens := false }
     (trun F0 {} [.begin true, .commit false true, .rollback, .begin true, .commit true true]).2 =
       [.ok, .err, .ok, .ok, .ackDangling] := by
+  decide
+
+/-- the defect F94 on the model that forgets a failed vacuum commit: the next transaction's COMMIT
+    is acknowledged from the tainted tree -/
+theorem without_vacuum_memory_next_commit_dangles :
+    let F0 : Facts := { F with vacuumRemembersFailedCommit := false }
+    (trun F0 {} [.vacuum true false, .begin true, .commit true true]).2 = [.err, .ok, .ackDangling] ∧
+    (trun F {} [.vacuum true false, .begin true, .commit true true]).2 = [.err, .ok, .ack] := by
   decide
 
 /-- the same history on the current source: the second transaction starts from the bucket -/
